@@ -55,6 +55,22 @@ mod vharness {
         assert!(s <= e, "C16:span:start-le-end");
     }
 
+    //@harness props=C16,C14,C15 strength=bounded bound="3 source files, each of any length <= 2^40 (incl. empty); ANY span start <= end <= len in any of them - whichever encoding the manager chooses for it (short spans inline, long ones through the interner; the boundary is the code's own, the harness does not know it)" clause="get_span(intern_span(c,s,e)) == (c,s,e) for spans of EVERY length, in particular around the largest length the inline encoding can hold" timeout=1200 replay=span_len
+    #[kani::proof]
+    #[kani::unwind(5)]
+    fn span_roundtrip_any_length() {
+        let (mut m, lens, ctxs) = mgr3();
+        let k: usize = kani::any();
+        kani::assume(k < 3);
+        let (start, end): (usize, usize) = (kani::any(), kani::any());
+        kani::assume(start <= end && end <= lens[k]);
+        let id = m.intern_span(ctxs[k], start, end);
+        let (c, s, e) = m.get_span(id);
+        assert!(c == ctxs[k] && s == start && e == end, "C16,C14,C15:span:roundtrip-for-every-length");
+        kani::cover!(end - start == 1usize << 25, "cover:span:length-2-pow-25");
+        kani::cover!(end - start > 1usize << 30, "cover:span:very-long-span");
+    }
+
     // Interned path, minimal: ONE concrete span beyond the inline encoding, interned and read back.
     // (The 4-span version with idempotence/distinctness timed out at 1200 s: the real hashbrown
     //  code behind hash_map::Entry is too heavy for CBMC, and span.rs names that type by full path,
